@@ -5,5 +5,5 @@ CONSTANTS
   MaxLen = 5
   Mode = "prefix"
   Stems = "all"
-INVARIANTS Found SharesGram ScoreSafe
+INVARIANTS Found SharesGram ScoreSafe Monotone
 CHECK_DEADLOCK FALSE
